@@ -78,6 +78,7 @@ def hist(steps):
     for s in steps:
         op = s[0]
         if op == 'p': out.append("p%d=%s" % (s[1], enc_s(s[2]) if isinstance(s[2], str) else s[2]))
+        elif op == 'v': out.append("v%d=%d,%d,%s" % (s[1], s[3], s[4], enc_s(s[2]) if isinstance(s[2], str) else s[2]))   # ('v', k, text, off, len)
         elif op in ('a', 'r'): out.append("%s%d=%d,%d,%d" % (op, s[1], s[2], s[3], s[4]))
         elif op == 'n': out.append("n%d=%d" % (s[1], s[2]))
         elif op == 'e': out.append("e%d=%d" % (s[1], s[2]))
